@@ -570,3 +570,35 @@ Proof.
   - rewrite (build_chain (options s) comps x t eq_refl eq_refl Hx Hc Hd).
     rewrite (check_final_options _ _ Hne). destruct (refused s comps); reflexivity.
 Qed.
+
+(* ---- the object specification as the builder and its checker see it *)
+Lemma prefixes_dedup p l : mem_str p (prefixes_of (dedup l)) = mem_str p (prefixes_of l).
+Proof.
+  apply bool_ext. rewrite !mem_prefixes. split; intros [x [Hin Hx]]; exists x; (split; [|exact Hx]);
+    apply mem_str_In; apply mem_str_In in Hin; [rewrite <- mem_dedup'|rewrite mem_dedup']; exact Hin.
+Qed.
+
+Lemma env_object cfg :
+  c_object cfg <> SNone ->
+  ev_object (mk_env cfg) = Some (object_names (c_object cfg)) /\
+  ce_object_fields (ev_chk (mk_env cfg)) = Some (dedup (object_names (c_object cfg))) /\
+  ce_object_prefixes (ev_chk (mk_env cfg)) = prefixes_of (dedup (object_names (c_object cfg))).
+Proof.
+  intros H. unfold mk_env, mk_chk_env, object_names. cbn [ev_object ev_chk ce_object_fields ce_object_prefixes].
+  destruct (c_object cfg) as [|l|kv]; [congruence| |]; cbn [normalize_object spec_of_set]; auto.
+Qed.
+
+Theorem object_spellings_env cfg1 cfg2 :
+  same_field_set (c_object cfg1) (c_object cfg2) -> c_object cfg1 <> SNone -> c_object cfg2 <> SNone ->
+  (forall x, x <> [] -> omem x (ev_object (mk_env cfg1)) = omem x (ev_object (mk_env cfg2))) /\
+  (forall x, x <> [] -> omem x (ce_object_fields (ev_chk (mk_env cfg1))) =
+                        omem x (ce_object_fields (ev_chk (mk_env cfg2)))) /\
+  (forall p, p <> [] -> mem_str p (ce_object_prefixes (ev_chk (mk_env cfg1))) =
+                        mem_str p (ce_object_prefixes (ev_chk (mk_env cfg2)))).
+Proof.
+  intros Hs H1 H2. destruct (object_spellings _ _ Hs H1 H2) as [Hn Hp].
+  destruct (env_object cfg1 H1) as [A1 [B1 C1]]. destruct (env_object cfg2 H2) as [A2 [B2 C2]].
+  rewrite A1, A2, B1, B2, C1, C2. cbn [omem]. split; [exact Hn|]. split.
+  - intros x Hx. rewrite !mem_dedup'. apply Hn. exact Hx.
+  - intros p Hp'. rewrite !prefixes_dedup. apply Hp. exact Hp'.
+Qed.
